@@ -193,6 +193,7 @@ def oracle_items(ctx, n, salt):
             variants.append(rg.single(rg.EXT_PRINT + "\n\n".join(q) + "\n", False))
         items.append({"cls": "init-through-function-values", "variants": variants, "must_accept": True})
     items += module_start_items(ctx, max(12, n // 4), salt)
+    items += type_mention_items(ctx, salt)
     for i in range(n):
         r = vlib.rng(ctx.seed, "%s-graph-%d" % (salt, i))
         src = cyclic_program(r)
@@ -326,12 +327,68 @@ THROUGH_VALUES = [
 ]
 
 
+# declared types that a definition mentions ONLY in an annotation (return type, parameter, local or global
+# annotation, blob field, function type, element type): the type checker must know the declaration wherever it
+# stands.  The first sets are ill-typed (rejected in every order), the last ones well-typed (accepted in every
+# order, same output).
+_START1 = "start :: fn do\n    print(1)\nend"
+TYPE_MENTIONS_BAD = [
+    ["make :: fn -> Point do\n    ret 1\nend", "start :: fn do\n    p :: make()\n    print(2)\nend", "Point :: blob { x: int, y: int }"],
+    ["make :: fn -> Point do\n    1\nend", "start :: fn do\n    p :: make()\n    p\nend", "Point :: blob { x: int, y: int, }"],
+    ["use_p :: fn p: Point -> int do\n    ret 1\nend", "start :: fn do\n    print(use_p(3))\nend", "Point :: blob { x: int }"],
+    ["mk :: fn -> int do\n    q: Point = 3\n    ret 1\nend", "start :: fn do\n    print(mk())\nend", "Point :: blob { x: int }"],
+    ["pick :: fn -> Color do\n    ret 1\nend", "start :: fn do\n    c :: pick()\n    print(1)\nend", "Color :: enum\n    Red,\n    Green,\nend"],
+    ["A :: blob { b: B }", "B :: blob { x: int }", "start :: fn do\n    a :: A { b: 1 }\n    print(1)\nend"],
+    ["g: Point = 1", "Point :: blob { x: int }", _START1],
+    ["h :: fn f: fn -> Point -> int do\n    ret 1\nend", "k :: fn -> int do\n    ret 2\nend", "start :: fn do\n    print(h(k))\nend",
+     "Point :: blob { x: int }"],
+    ["mk :: fn -> [Point] do\n    ret [1]\nend", "start :: fn do\n    l :: mk()\n    print(1)\nend", "Point :: blob { x: int }"],
+    ["mk :: fn -> (Point, int) do\n    ret (1, 1)\nend", "start :: fn do\n    l :: mk()\n    print(1)\nend", "Point :: blob { x: int }"],
+    ["outer :: fn -> int do\n    inner :: fn -> Point do\n        ret 5\n    end\n    inner()\n    ret 1\nend",
+     "start :: fn do\n    print(outer())\nend", "Point :: blob { x: int }"],
+    ["E :: enum\n    A P,\n    B,\nend", "P :: blob { x: int }", "start :: fn do\n    e :: E.A 3\n    print(1)\nend"],
+]
+TYPE_MENTIONS_GOOD = [
+    ["make :: fn -> Point do\n    ret Point { x: 1, y: 2 }\nend", "start :: fn do\n    p :: make()\n    print(p.x)\nend",
+     "Point :: blob { x: int, y: int }"],
+    ["area :: fn p: Point -> int do\n    ret p.x * p.y\nend", "start :: fn do\n    print(area(Point { x: 2, y: 3 }))\nend",
+     "Point :: blob { x: int, y: int }"],
+    ["pick :: fn -> Color do\n    ret Color.Red\nend", "start :: fn do\n    c :: pick()\n    print(1)\nend",
+     "Color :: enum\n    Red,\n    Green,\nend"],
+    ["A :: blob { b: B }", "B :: blob { x: int }", "start :: fn do\n    a :: A { b: B { x: 4 } }\n    print(a.b.x)\nend"],
+    ["h :: fn f: fn -> Point -> int do\n    ret f().x\nend", "k :: fn -> Point do\n    ret Point { x: 7 }\nend",
+     "start :: fn do\n    print(h(k))\nend", "Point :: blob { x: int }"],
+]
+
+
+def type_mention_items(ctx, salt):
+    items = []
+    for good, sets in ((False, TYPE_MENTIONS_BAD), (True, TYPE_MENTIONS_GOOD)):
+        for j, paras in enumerate(sets):
+            r = vlib.rng(ctx.seed, "%s-types-%d-%s" % (salt, j, good))
+            perms = list(itertools.permutations(paras))
+            if ctx.tier == "quick" and len(perms) > 8:
+                perms = [perms[0], perms[-1]] + r.sample(perms[1:-1], 6)
+            variants = [rg.single(rg.EXT_PRINT + "\n\n".join(q) + "\n", False) for q in perms]
+            it = {"cls": "type-only-in-annotation", "variants": variants}
+            if good:
+                it["must_accept"] = True
+            else:
+                it["must_reject"] = True
+            items.append(it)
+    return items
+
+
 def judge(it, res):
     base = res[0]
     if it.get("must_accept"):
         for k, x in enumerate(res):
             if x[0] != "OK" or (len(x) > 1 and x[1] not in ("done", "not-run")):
                 return "an initialiser that reaches a later global through a function value: %s" % str(x)[:150], k
+    if it.get("must_reject"):
+        for k, x in enumerate(res):
+            if x[0] == "OK":
+                return "an ill-typed program (a declared type is mentioned only in an annotation) is accepted in this order", k
     for k, x in enumerate(res[1:], 1):
         if x == base:
             continue
